@@ -125,7 +125,10 @@ static void alloc_b(int kid, int n) {
         d.a0.copy(j1); d.a1.copy(j2); d.bsig.copy(j1);
         d.l = (g_dirty % 3 == 1) ? n + 3 : 0;
         d.signatures = (g_dirty & 1) != 0;
-        for (int i = 0; i < n + SLACK; i++) { b[i].idx = (uint32_t) (i * 2 + 1); memcpy(&b[i].hexp, &j1, sizeof j1); }
+        // stale slot records as an earlier key in the same object would have left them: slot i at position i (all slots were free), or
+        // shifted by one or two (some low slots were fixed), or unrelated indices
+        unsigned shape = (g_dirty / 3) % 4;
+        for (int i = 0; i < n + SLACK; i++) { b[i].idx = shape == 3 ? (uint32_t) (i * 2 + 1) : (uint32_t) i + shape; memcpy(&b[i].hexp, &j1, sizeof j1); }
     }
     K[kid].k.b = b;
 }
@@ -259,6 +262,18 @@ static void cmd_adjust(void) {
     int length = K[parent].k.l;
     if (length != K[kid].k.l) {
         K[kid].k.b = (length + SLACK) > 0 ? (embedded_pairing_wkdibe_freeslot_t*) realloc(K[kid].k.b, sizeof(embedded_pairing_wkdibe_freeslot_t) * (size_t) (length + SLACK)) : (free(K[kid].k.b), (embedded_pairing_wkdibe_freeslot_t*) NULL);
+        // the slots gained by the reallocation hold STALE records, as they do when the object (or the allocator's block) held another
+        // key before: a foreign valid point under the index the parent has at that position or one or two positions further on -
+        // what an implementation that trusts "the index is already right" would be fooled by
+        int old = K[kid].alloc < K[kid].k.l ? K[kid].alloc : K[kid].k.l;
+        if (old < 0) old = 0;
+        G1 junk; BigInt<256> jk; memset(&jk, 0, sizeof jk); jk.std_words[0] = 0x7654321 + g_dirty; junk.multiply_doubleadd(G1::one, jk);
+        unsigned shift = g_dirty++ % 3;
+        for (int i = old; i < length + SLACK && K[kid].k.b; i++) {
+            int pi = i + (int) shift;
+            K[kid].k.b[i].idx = (length > 0) ? K[parent].k.b[pi < length ? pi : length - 1].idx : (uint32_t) i;
+            memcpy(&K[kid].k.b[i].hexp, &junk, sizeof junk);
+        }
         K[kid].alloc = length;
     }
     embedded_pairing_wkdibe_adjust_nondelegable(&K[kid].k, &K[parent].k, LP(f), LP(t));
